@@ -10,7 +10,7 @@
    zero-padding / JWRN_HIT_MARKER path; HUFF_DECODE with the 8-bit look-ahead
    protocol and jpeg_huff_decode.                                                  *)
 From Coq Require Import List ZArith Bool.
-From LJT Require Import model.Suspend model.SuspendMarker.
+From LJT Require Import model.SuspendCore model.SuspendMarker.
 Import ListNotations.
 Local Open Scope Z_scope.
 
